@@ -451,11 +451,11 @@ def case_interleave_values(rep):
         try:
             x = Assertion.interleave_values(ns, nm, nb, small=0, med=0.5, big=2.0)
         except Exception as ex:
-            rep.fail("interleave_values does not raise", inp, got=type(ex).__name__ + ": " + str(ex)[:60], known="K7" if nb == 0 else None)
+            rep.fail("interleave_values does not raise", inp, got=type(ex).__name__ + ": " + str(ex)[:60])
             continue
         got = {"n_small": int(np.sum(x == 0)), "n_med": int(np.sum(x == 0.5)), "n_big": int(np.sum(x == 2.0))}
         if got != inp or len(x) != ns + nm + nb:
-            rep.fail("exactly the requested number of each value", inp, got=got, known="K7" if nb == 0 else None)
+            rep.fail("exactly the requested number of each value", inp, got=got)
     rep.sample({"n_small": 1, "n_med": 2, "n_big": 3})
 
 
